@@ -4,8 +4,15 @@ From FV Require Import Base.Ser Base.Res C12.Model C12.Proofs.
 Import ListNotations.
 Open Scope Z_scope.
 
-(* generalising rmoveto/hmoveto/vmoveto/rlineto/hlineto/vlineto/rrcurveto/hhcurveto/vvcurveto — for every
-   argument count the generaliser accepts — yields commands that the interpreter draws identically *)
+(* generalising ANY of the thirteen Type 2 path operators (rmoveto hmoveto vmoveto rlineto hlineto vlineto rrcurveto hhcurveto
+   vvcurveto hvcurveto vhcurveto rcurveline rlinecurve) -- for every argument count the generaliser accepts -- yields commands that
+   the interpreter draws identically *)
+Theorem generalize_preserves_all : forall o args cs,
+  generalize o args = Ok cs -> interp_all cs = interp o args.
+Proof. exact Proofs.generalize_preserves_all. Qed.
+Print Assumptions generalize_preserves_all.
+
+(* the nine non-alternating operators (kept as a separate statement: it was the first one proved) *)
 Theorem generalize_preserves : forall o args cs,
   proved_op o = true -> generalize o args = Ok cs -> interp_all cs = interp o args.
 Proof. exact Proofs.generalize_preserves. Qed.
